@@ -91,6 +91,12 @@ CHECKS = {
         note="Trusted: z3, CPython, rsx. Module and package names are concrete. Two genuine defects are known findings.",
         design="§5 C07",
     ),
+    "C05": dict(
+        level="other",
+        text="Solver-decided, path-exhaustive within stated bounds (Pattern B): move.create_move (MoveGlobal for functions, classes and variables; MoveModule into a package incl. relative imports; MoveMethod), module rename and ModuleToPackage over layouts K05 whose clients reach the moved object through plain, dotted, from, aliased and relative imports; in-module identifier spellings are symbolic, so the moved code's free names colliding with destination names and aliases colliding with locals are solver-explored. Each result is a refusal or must parse, keep every module importable and print the same output through every client import style.",
+        note="Trusted: z3, CPython, rsx. Module/package/file names are concrete. Six hazard classes of MoveGlobal are known findings identified by root-cause tags; a failure is suppressed only if all its tags are known.",
+        design="§5 C05",
+    ),
 }
 
 NOT_YET = "check not built yet (see DESIGN.md §5 for the planned decision procedure)"
